@@ -47,6 +47,8 @@ def write_evidence(prop, tier, seed, proof, bounded, known_lines, violations, fa
             "failed_obligations": [o["name"] for o in proof["failed"]],
             "explanation": proof.get("explanation", ""),
         })
+        if proof.get("second_opinion"):
+            cov["second_opinion"] = proof["second_opinion"]
         if proof.get("engine_crosscheck"):
             cov["engine_crosscheck"] = dict(proof["engine_crosscheck"], what="comparison callables explored symbolically once, then their path "
                                             "conditions and results evaluated on concrete argument tuples and compared with CPython's outcome "
